@@ -371,6 +371,7 @@ package tags
 //@ implements func(io.Writer, render.Context) error
 //@ props C14 C01 C20
 //@ panics nothing
+//@ requires tag: intag(ctx)
 //@ ghost argsrc Str = ""
 //@ ghost v Val = nil
 //@ ghost e Val = nil
